@@ -358,10 +358,12 @@ class Transfer:
         return snapshot
 
     def _remotely_queue_task_complete(self, task: asyncio.Task):
-        self._remotely_queue_task = None
+        if self._remotely_queue_task is task:
+            self._remotely_queue_task = None
 
     def _transfer_task_complete(self, task: asyncio.Task):
-        self._transfer_task = None
+        if self._transfer_task is task:
+            self._transfer_task = None
 
     def _transfer_progress_callback(self, data: bytes):
         self.bytes_transfered += len(data)
